@@ -1041,6 +1041,12 @@ func main() {
 		err = reposStage(*out, *seed, *tier)
 	case "vctx":
 		err = vctxStage(*out, *seed, *tier)
+	case "wiring":
+		err = wiringStage(*out, *seed, *tier)
+	case "files":
+		err = filesStage(*out, *seed, *tier)
+	case "interleave":
+		err = interleaveStage(*out, *seed, *tier)
 	default:
 		err = fmt.Errorf("unknown stage %q", *stage)
 	}
